@@ -90,6 +90,9 @@ open QV.Spec.Sem (Val World Host Ev Ty STy coerceTo binop unop)
 structure CtxAgree (wc : QV.Model.Ctx) (sc : QV.Spec.Sem.Ctx) (ic : ICtx) : Prop where
   host : sc.H = ic.H
   float : sc.H.F = wc.F
+  /-- one document: the translation context of `qsTr` (the type name) is the same for the reference semantics and for
+      the execution of the IR -/
+  docType : sc.docType = ic.docType
   objects : ∀ name cls, wc.objects.find? (·.1 = name) = some (name, cls) →
     ∃ o, sc.objects.find? (·.1 = name) = some (name, o, cls) ∧ ic.named name = some o
   noObject : ∀ name, wc.objects.find? (·.1 = name) = none → sc.objects.find? (·.1 = name) = none
